@@ -76,6 +76,8 @@ def run(tier, seed):
             for lib in libs:
                 guards[(lib, dm.group(1), int(dm.group(2)))] = (g, os.path.relpath(os.path.join(base, f), REPO))
     n_obl = n_ok = 0
+    bad_conts, witness = {}, {}
+    bad_conts, witness = {}, {}
     checked = []
     for c, b in zip(ok, bnds):
         if not b.startswith("lo="):
@@ -102,8 +104,8 @@ def run(tier, seed):
             elif ghi < hi_c:
                 bad = f"the reader rejects bodies above {ghi}, the definition allows {hi_c} (interval {lo}..{hi}, frame limit {cap})"
         if bad:
-            rep.violation(f"C09/{c['key']}/guard", f"{c['key']}: {bad}", {"container": c["key"], "generated_file": gfile, "guard": [gk, glo, ghi], "model": {"lo": lo, "hi": hi, "fixed": fixed}, "cap": cap,
-                                                                        "input": "see search below (extremal encoding)"}, no_input=True)
+            # reported after the search below, with a concrete valid message the reader rejects when one is found
+            bad_conts[c["key"]] = (bad, {"container": c["key"], "generated_file": gfile, "guard": [gk, glo, ghi], "model": {"lo": lo, "hi": hi, "fixed": fixed}, "cap": cap})
         else:
             n_ok += 1
         checked.append((c, lo, hi_c, glo, ghi))
@@ -114,6 +116,11 @@ def run(tier, seed):
     for (c, lo, hi, glo, ghi) in checked:
         reqs.append(f"genmin {c['key']} {24 if tier == 'quick' else 200}")
         meta.append((c, lo, hi, glo, ghi))
+        if c["key"] in bad_conts:
+            # targeted search: branch-directed and long-array / long-string samples of the message whose guard disagrees
+            for s in range(60):
+                reqs.append(f"gen {c['key']} {rng.below(1 << 40)} {(1, 4, 16, 60)[s % 4]} {s if s < 30 else 1000000}")
+                meta.append((c, lo, hi, glo, ghi))
         for s in range(per):
             reqs.append(f"gen {c['key']} {rng.below(1 << 40)} {2 if s else 12}")
             meta.append((c, lo, hi, glo, ghi))
@@ -130,9 +137,26 @@ def run(tier, seed):
         e[0] = min(e[0], n); e[1] = max(e[1], n)
         if n < lo or n > hi and n <= direction_cap(c["lib"], c["kind"]):
             rep.violation(f"C09/model/{c['key']}", f"model interval {lo}..{hi} does not contain the length {n} of a canonical encoding", {"container": c["key"], "length": n, "encoding": g.split()[1][:400]})
-        if n < glo or n > ghi:
+        if (n < glo or n > ghi) and c["key"] in bad_conts:
+            witness.setdefault(c["key"], (n, g.split()[1]))
+        elif n < glo or n > ghi:
             rep.violation(f"C09/{c['key']}/valid-message-rejected", f"{c['key']}: a canonical encoding of {n} bytes is outside the reader's guard {glo}..{ghi}",
                           {"container": c["key"], "input_body_hex": g.split()[1][:2000], "length": n, "guard": [glo, ghi]})
+    by_key = {c["key"]: c for c, *_ in checked}
+    if bad_conts:
+        rc_, out_, har = harness_build("world")
+    for key, (bad, info) in bad_conts.items():
+        if key in witness and rc_ == 0:
+            n, hexbody = witness[key]
+            c = by_key[key]
+            dr = directions(c)[0]
+            fr = frame(libname(c), dr, c["opcode"], bytes.fromhex(hexbody) if hexbody != "-" else b"")
+            rq = f"dec {libname(c)} {dr} {fr.hex()}"
+            impl = run_lines(har, [rq])[0]
+            if not impl.startswith("ok"):
+                rep.violation(f"C09/{key}/guard", f"{key}: {bad}; a canonical encoding of {n} bytes is rejected: '{impl[:100]}'", dict(info, input_frame_hex=fr.hex()[:4000], length=n, implementation=impl[:300], replay_cmd=f"echo '{rq[:8000]}' | {har}"))
+                continue
+        rep.violation(f"C09/{key}/guard", f"{key}: {bad}", dict(info, unchecked="containment of the model interval in the published guard; no rejected valid message found by the targeted search"), no_input=True)
     attained = sum(1 for c, lo, hi, glo, ghi in checked if extremes.get(c["key"], [None])[0] == lo)
     rep.coverage = {
         "obligations": po["obligations"] + n_obl + len(want), "discharged": po["discharged"] + n_ok + sum(1 for k, v in want.items() if lim.get(k) == v),
